@@ -289,6 +289,9 @@ Definition r_hint (total : nat) : bytes :=
   B "To remove " ++ (if Nat.leb 2 total then B "them" else B "it")
     ++ B ", re-run tests with `UPDATE_SNAPS=clean go test ./...`".
 
+(* the reader recognises the hint by its opening words only: how the advice is worded is presentation *)
+Definition r_hint_lead : bytes := B "To remove ".
+
 Definition sec_items (s : option (list bytes * bool)) : list bytes :=
   match s with Some (x, _) => x | None => [] end.
 
@@ -301,7 +304,7 @@ Definition join_wording (f t : option (list bytes * bool)) : option (option bool
   | None, None => Some None
   end.
 
-(* file section?, test section?, hint exactly when the wording is "obsolete", then the two final
+(* file section?, test section?, a hint line ("To remove ...") exactly when the wording is "obsolete", then the two final
    empty pieces (Println's newline, and the piece after the last newline) *)
 Definition read_tail (ls : list bytes) : option (list bytes * list bytes * option bool) :=
   match read_list LFile ls with
@@ -319,7 +322,7 @@ Definition read_tail (ls : list bytes) : option (list bytes * list bytes * optio
                 match w with
                 | Some false =>
                     match ls2 with
-                    | [] :: h :: r => if beq h (r_hint (length files + length tests)) then Some r else None
+                    | [] :: h :: r => match strip_prefix r_hint_lead h with Some _ => Some r | None => None end
                     | _ => None
                     end
                 | _ => Some ls2
